@@ -107,6 +107,19 @@ func runC04(r *core.Run) (bool, string) {
 			if !r.Quick() && len(ds.Units) == 3 {
 				lays = exhaustiveLayouts(3)
 			}
+			if ds.Family == "conversion-two-users" {
+				lays = conversionUsersLayouts()
+			}
+			if ds.Family == "two-users" && len(ds.Units) == 4 && r.Quick() {
+				// every order in one file; the two-file layouts under the first pair of file names only
+				var l []layout
+				for _, x := range lays {
+					if len(x.Files) == 1 || x.Files[0].Name == "a_f1.go" {
+						l = append(l, x)
+					}
+				}
+				lays = l
+			}
 			r.Count("layouts_of_generated_families/"+ds.Family, int64(len(lays)))
 			r.Count("sets_of_generated_families/"+ds.Family, 1)
 		}
@@ -203,10 +216,19 @@ func runC04(r *core.Run) (bool, string) {
 	// again with -typecheck (the theorems exist for functions, methods, constants and globals only)
 	for _, ds := range sets {
 		si := infos[ds]
-		if !strings.HasPrefix(ds.Origin, "directed:") || si.err != "" || !si.tcRelevant || rejectedAtoms[ds.Atoms[0]] {
+		if !strings.HasPrefix(ds.Origin, "directed:") || si.err != "" || !si.tcRelevant || rejectedAtoms[ds.Atoms[0]] || ds.Family == "conversion-two-users" {
 			continue
 		}
 		tl := typecheckLayouts(len(ds.Units))
+		if ds.Family == "two-users" && r.Quick() {
+			var l []layout
+			for _, x := range tl {
+				if len(x.Files) == 1 {
+					l = append(l, x)
+				}
+			}
+			tl = l
+		}
 		for k, l := range tl {
 			tcJobs = append(tcJobs, &c04Job{set: ds, k: k, lay: l, tc: true, rel: fmt.Sprintf("%s_t%04d", ds.ID, k)})
 		}
@@ -756,6 +778,17 @@ func c04Judge(r *core.Run, ds *declSet, si *setInfo, j *c04Job, defs []vdef, vte
 					qual := ""
 					if tk == "alias" {
 						qual = "-of-type-alias"
+					}
+					if tk == "conversion" && kind == "interface-conversion" {
+						// the user passes the struct only in plain positions (call statement, right-hand side of a define or
+						// assignment, returned expression at the top level of its body): not the if-condition shape of the known finding
+						plain := false
+						for _, uu := range si.expected[d.Name] {
+							plain = plain || p.PlainConvUser[uu]
+						}
+						if plain {
+							qual = "-by-a-plain-call-user"
+						}
 					}
 					if tu >= 0 {
 						for _, n := range sortedKeys(p.ImportedMentions[tu]) {
